@@ -394,8 +394,14 @@ func (core *JApiCore) addRequest(d *directive.Directive) *jerr.JApiError {
 		}
 
 	case sn == notation.SchemaNotationRegex && typ == "" && d.BodyCoords.IsSet():
-		if s, err = catalog.NewExchangeRegexSchema(d.BodyCoords.Read()); err == nil {
-			err = core.catalog.AddRequestBody(s, bodyFormat, *d)
+		var rs *catalog.ExchangeRegexSchema
+		if rs, err = catalog.NewExchangeRegexSchema(d.BodyCoords.Read()); err == nil {
+			// An invalid regular expression has to be reported now, not when the
+			// catalog is serialised.
+			if err = rs.Check(); err == nil {
+				s = rs
+				err = core.catalog.AddRequestBody(s, bodyFormat, *d)
+			}
 		}
 		var e kit.Error
 		if errors.As(err, &e) {
